@@ -274,6 +274,9 @@ class Ledger:
                 ok = self.penc_callsites_exclusive()
                 return ("callsites", "every call site passes exactly one of command / authorizationArea") if ok else None
             if s.kind == "idiom:iterate-optional":
+                v = s.detail
+                if any(norm(t) == f"{v} is None" for t, _ in self.prior_returns(n)):
+                    return "guarded", f"an earlier `if {v} is None: return` guards the iteration"
                 if self.mode == "strict":
                     return "mode", ("strict mode: the session area is a decode result, which is None only on warn-mode recovery returns; "
                                     "the command form tests `authorizationArea is None` first")
